@@ -400,7 +400,8 @@ def eval_objects(st):
 def discovery_sources(future_w, future_c):
     callee = ('class T(object):\n    label = "T@callee"\n\n\ndef callee(x: T, y: T = None, *, z: T = None) -> T:\n    return x\n')
     wrapper = ('class T(object):\n    label = "T@wrapper"\n\nCAL = None\n\n\ndef w(a: T, *args, **kwargs) -> T:\n    return CAL(*args, **kwargs)\n\n\n'
-               'def w2(b: T, *args, **kwargs) -> T:\n    return w(*args, **kwargs)\n')
+               'def w2(b: T, *args, **kwargs) -> T:\n    return w(*args, **kwargs)\n\n\n'
+               'from sigtools import modifiers\n\n\n@modifiers.annotate(T, c=T)\ndef w3(c, *args, **kwargs):\n    return CAL(*args, **kwargs)\n')
     return wrapper, callee
 
 
@@ -417,15 +418,18 @@ def eval_discovery(st):
             try:
                 mw, mc = bw.modules[0], bc.modules[0]
                 mw.CAL = mc.callee
-                for name in ('w', 'w2'):
+                for name in ('w', 'w2', 'w3'):
                     st.inc('states')
                     st.inc('transitions')
                     sig = sigtools.signature(getattr(mw, name))
                     probs = []
+                    own = {'w': 'a', 'w2': 'b', 'w3': 'c'}[name]
+                    if own not in sig.parameters or sig.parameters[own].annotation is E:
+                        probs.append('%s: the annotation %s is gone' % (own, 'given to modifiers.annotate' if name == 'w3' else 'of the def'))
                     for p in sig.parameters.values():
                         if p.annotation is E:
                             continue
-                        want = mw.T if p.name in ('a', 'b') else mc.T
+                        want = mw.T if p.name in ('a', 'b', 'c') else mc.T
                         got = p.upgraded_annotation.source_value()
                         if got is not want:
                             probs.append('%s: source_value() is %r (%s), expected %s' % (p.name, got, getattr(got, 'label', '?'), want.label))
